@@ -87,11 +87,45 @@ class GB58:
             return _M(self._ends)
         if name == 'split':
             return _M(self._split)
+        if name == 'partition':
+            return _M(self._partition)
         if name == 'encode':
             return _M(lambda e, *a: GB58(self.row, self.payload, self.ep, True))
         if name == 'decode':
             return _M(lambda e, *a: GB58(self.row, self.payload, self.ep, False))
         raise Unsupported(f'str.{name} on a ghost base58 string')
+
+    def _partition(self, eng, sep, *a):
+        if sep != '%':
+            raise Unsupported('partition on ' + repr(sep))
+        base = GB58(self.row, self.payload, None, self.as_bytes)
+        return (base, '', '') if self.ep is None else (base, '%', self.ep)
+
+    def __pyvc_cmp__(self, eng, op, other, refl):
+        """== / != : same kind, payload and entrypoint.   < <= > >= between two strings WITHOUT entrypoint:
+        different kinds whose human-readable prefixes are not prefix-related are ordered by those prefixes (every string of a kind
+        starts with its prefix: C09); the same kind by the payload bytes (lemma L-b58a: base58 strings of one kind have equal
+        length and the base58 alphabet is ASCII-increasing, so text order == numeric order == byte order of prefix‖payload‖checksum,
+        and the payload decides whenever it differs)."""
+        if not isinstance(other, GB58):
+            if isinstance(op, ast.Eq):
+                return False
+            if isinstance(op, ast.NotEq):
+                return True
+            return NotImplemented
+        if isinstance(op, (ast.Eq, ast.NotEq)):
+            f = self.same(eng, other)
+            return Sym(f if isinstance(op, ast.Eq) else z3.Not(f))
+        a, b = (other, self) if refl else (self, other)
+        if a.ep is not None or b.ep is not None:
+            raise Unsupported('ordering of base58 strings with entrypoints')
+        if a.row != b.row:
+            ha, hb = a.hp, b.hp
+            if ha.startswith(hb) or hb.startswith(ha):
+                raise Unsupported(f'ordering of {ha} and {hb} strings depends on payload digits')
+            import operator
+            return {ast.Lt: operator.lt, ast.LtE: operator.le, ast.Gt: operator.gt, ast.GtE: operator.ge}[type(op)](ha, hb)
+        return eng.bytes_order(op, a.payload, b.payload)
 
     def __pyvc_getitem__(self, eng, s):
         if isinstance(s, slice) and s.start in (None, 0) and s.step is None and isinstance(s.stop, int) and 0 <= s.stop <= len(self.hp):
